@@ -56,6 +56,13 @@ pub const PATHS: &[&str] = &[
     // keys that themselves contain an escape-shaped text: "a%20b", "%41"
     "/bkt/a%2520b",
     "/bkt/%2541",
+    // keys with empty segments (a path is never normalised: these are other keys than their collapsed forms), and a key
+    // holding an escape-shaped text whose second decoding would not be text
+    "/bkt/dir//file",
+    "/bkt/a///b",
+    "/bkt/dir//",
+    "/bkt//lead",
+    "/bkt/50%25cashback%25ff",
 ];
 pub const QUERIES: &[&str] = &["", "a=1", "a=", "a", "b=2&a=1", "a=2&a=1", "a=1&a=2", "a=%20+%2F", "k=%C3%A9", "A=1&a=2", "k=%2541&%2520=v",
     // names whose order changes when they are escaped (the canonical form sorts the *escaped* names): ':' sorts after '1',
@@ -485,8 +492,10 @@ fn apply(mu: &Mutn, r: &mut Req, body: &mut Vec<u8>, keys: &mut Vec<(String, Str
             // stay inside the escape grammar: only plain bytes are replaced, hex digits are rotated
             let c = p[*i];
             let in_escape = (*i >= 1 && p[*i - 1] == b'%') || (*i >= 2 && p[*i - 2] == b'%');
-            p[*i] = if c == b'%' || c == b'/' {
+            p[*i] = if c == b'%' {
                 return false;
+            } else if c == b'/' {
+                b'/' // (a slash is doubled below: another key, not another spelling)
             } else if in_escape {
                 match c {
                     b'0'..=b'8' => c + 1,
@@ -499,6 +508,9 @@ fn apply(mu: &Mutn, r: &mut Req, body: &mut Vec<u8>, keys: &mut Vec<(String, Str
             } else {
                 b'q'
             };
+            if c == b'/' {
+                p.insert(*i, b'/');
+            }
             let p = String::from_utf8(p).unwrap();
             // must still decode to UTF-8 to be a request the adapter can interpret at all
             if pct_decode(&p).is_none() {
@@ -772,7 +784,7 @@ pub fn run(ctx: &Ctx) -> (Acc, Report) {
     }
     let rep = Report {
         level: "exploration",
-        rule: format!("{n_bases} honestly signed base requests (method x 17 paths x 15 query multisets (incl. names whose order changes when they are escaped) x 12 signed-header shapes (incl. runs of 3-5 blanks and tabs) x payload/mode x HTTP/1.1 | HTTP/2 | HTTP/2 with a port in the authority), each with every applicable single-component mutation (each signed header value/name/removal, each query pair, each path byte, method, each body byte, each signature digit, each scope field, dates, provider secret, signed-header list) and 6 canonical-equivalent rewrites; oracle = reference verifier on the same bytes. Distinct by (base, mutation) id; every evaluated case is non-trivial (it reaches signature comparison or a parse refusal)."),
+        rule: format!("{n_bases} honestly signed base requests (method x {} paths (incl. keys with empty segments - a path is never normalised) x 15 query multisets (incl. names whose order changes when they are escaped) x 12 signed-header shapes (incl. runs of 3-5 blanks and tabs) x payload/mode x HTTP/1.1 | HTTP/2 | HTTP/2 with a port in the authority), each with every applicable single-component mutation (each signed header value/name/removal, each query pair, each path byte - a slash is doubled -, method, each body byte, each signature digit, each scope field, dates, provider secret, signed-header list) and 6 canonical-equivalent rewrites; oracle = reference verifier on the same bytes. Distinct by (base, mutation) id; every evaluated case is non-trivial (it reaches signature comparison or a parse refusal).", PATHS.len()),
         exhaustive: true,
         extra: json!({"histories": hist_n, "history_requests_executed": hist_steps, "history_rule": "all sequences of length 1..3 over 8 requests of this property's scheme(s) (two identities x honest / signed with the other identity's secret x two scopes) plus every pair led by a request of another scheme, on one service instance, single-threaded, fixed order; each verdict = the reference verdict of that request alone", "base_requests": n_bases, "secret_length_cases": n_secret_lengths, "secret_length_rule": "provider secrets of 1, 2, 39-41, 59-65, 123-129, 255-257, 1000 and 5000 bytes: an honest request is accepted, and refused when the stored secret differs in its last character", "quick_tier_note": "quick keeps grid points where at most one of (path, query, header-shape, http2) is beyond its first two values; thorough is the full product"}),
         assumptions: vec![
